@@ -7,6 +7,7 @@ from hypothesis import strategies as st
 
 import pendulum
 from pendulum import Time
+from vf import strategies as S
 from vf.core import Sub, Violation, req
 
 DAY = 86400 * 10**6
@@ -36,7 +37,7 @@ def tdus(td):
 
 tod = st.one_of(
     st.sampled_from([0, 1, DAY - 1, DAY // 2, 10**6 - 1, 10**6, DAY - 10**6, 3600 * 10**6 - 1]),
-    st.integers(0, DAY - 1),
+    S.uni(0, DAY - 1),
     st.builds(lambda s, u: s * 10**6 + u, st.integers(0, 86399), st.sampled_from([0, 1, 999999, 500000])),
 )
 
@@ -44,7 +45,7 @@ amount = st.fixed_dictionaries({}, optional={
     "hours": st.integers(-200, 200),
     "minutes": st.integers(-10000, 10000),
     "seconds": st.integers(-10**6, 10**6),
-    "microseconds": st.one_of(st.integers(-10**7, 10**7), st.integers(-3 * DAY, 3 * DAY)),
+    "microseconds": st.one_of(S.uni(-10**7, 10**7), S.uni(-3 * DAY, 3 * DAY)),
 })
 
 
